@@ -18,9 +18,9 @@
    - [lev]: the UpdateListener calls (LAdd k v = OnAdd, LDel k = OnDelete);
      [live x log v]: in the call log, some key k registered v and since then k was neither
      deleted nor registered again and — when x (exclusive) — nobody registered v again. *)
-From Coq Require Import List ZArith Bool Permutation.
+From Coq Require Import List ZArith Bool Permutation Lia.
 From GZgen Require Import C13Consts.
-From GZ Require Import C13.Model C13.Proofs C13.ProofsB C13.ProofsC C13.ProofsD C13.ProofsE C13.GenProofs.
+From GZ Require Import C13.Model C13.Proofs C13.ProofsB C13.ProofsC C13.ProofsD C13.ProofsE C13.ProofsF C13.GenProofs.
 Import ListNotations.
 Open Scope Z_scope.
 
@@ -51,6 +51,25 @@ Theorem view_equals_registrations : forall xs evs c,
   (cexcl c = true -> forall v, In v (c_view c) -> registered (truth evs) v).
 Proof. exact sys_views. Qed.
 Print Assumptions view_equals_registrations.
+
+(* The same against etcd itself.  [h]: etcd's mutation history (mutation i makes revision
+   i+1); the registry receives loads (a Get answered at some revision, handleChanges) and
+   watch events (handleWatchEvents).  Under the delivery hypothesis
+   [events_after_snapshot] (ProofsF.v: a snapshot is the etcd state of its revision; after
+   a load at revision r the watch continues with revision r+1, in order, no gaps, no
+   repetitions — what WithRev(rev+1) in cluster.setupWatch asks etcd for), Values() of
+   every subscriber is / is within the values registered in etcd at the last delivered
+   revision. *)
+Theorem view_equals_etcd_registrations : forall h ds xs c,
+  events_after_snapshot h 0 ds ->
+  wf_run (init xs) (map (ev_of h) ds) ->
+  In c (conts (run (init xs) (map (ev_of h) ds))) ->
+  let now := etcd_state h (final_pos 0 ds) in
+  NoDup (c_values c) /\
+  (cexcl c = false -> forall v, In v (c_values c) <-> registered now v) /\
+  (cexcl c = true -> forall v, In v (c_values c) -> registered now v).
+Proof. exact views_are_etcd_state. Qed.
+Print Assumptions view_equals_etcd_registrations.
 
 (* ... and every subscriber (in particular the exclusive ones) shows exactly the live
    values of the calls it received ([logs]: the i-th listener's flag and call log). *)
@@ -211,6 +230,21 @@ Example ex_kube_obs :
   (klast (krun kinit ex_kube), kcount (krun kinit ex_kube)) = ([4], 4) /\
   klast (krun kinit (firstn 4 ex_kube)) = [2; 3].
 Proof. vm_compute. split; reflexivity. Qed.
+
+(* etcd: put 1=10, put 2=10, del 1, put 3=30.  The registry loads at revision 2, watches
+   revisions 3 and 4, reloads at revision 4 (a pure replay: no call), ... *)
+Definition ex_h : list bev := [BPut 1 10; BPut 2 10; BDel 1; BPut 3 30].
+Definition ex_ds : list dlv :=
+  [DLoad 2 [(1, 10); (2, 10)] [LAdd 2 10; LAdd 1 10]; DWatch 2; DWatch 3; DLoad 4 [(2, 10); (3, 30)] []].
+Example ex_delivery :
+  events_after_snapshot ex_h 0 ex_ds /\ wf_run (init [false]) (map (ev_of ex_h) ex_ds) /\
+  map c_values (conts (run (init [false]) (map (ev_of ex_h) ex_ds))) = [[30; 10]] /\
+  etcd_state ex_h (final_pos 0 ex_ds) = [(3, 30); (2, 10)].
+Proof.
+  split; [|split; [|split; reflexivity]].
+  - cbn [events_after_snapshot ex_ds]. repeat split; try (cbn; lia); intros k; f_equal; reflexivity.
+  - vm_compute. repeat split; apply Permutation_refl.
+Qed.
 
 Example ex_subset : subset [5; 4; 3; 2; 1] 3 = [5; 4; 3] /\ subset [2; 1] 3 = [2; 1].
 Proof. vm_compute. split; reflexivity. Qed.
